@@ -16,6 +16,7 @@ type searchTemplate struct {
 	Named   map[string]bool
 	Filters []string // which filters were non-empty on the path
 	Unknown string   // non-empty when the evaluator met a construct it cannot interpret
+	Infeasible bool  // the path contradicts what the evaluator knows (e.g. len(list) > 0 not taken with a non-empty list)
 	ArgPos  []int    // for each id-list expansion, in call order, where its placeholder was in the query
 }
 
@@ -25,6 +26,7 @@ func evalSearchBuilder(fl *Flow, p *Path) searchTemplate {
 	t := searchTemplate{Named: map[string]bool{}}
 	builders := map[types.Object]*strings.Builder{}
 	strs := map[types.Object]string{}
+	lists := map[types.Object][]string{} // []string locals built by append
 	iter := map[ast.Stmt]int{}
 	idxOf := map[types.Object]ast.Stmt{} // range key variable → its loop
 	var eval func(e ast.Expr) (string, bool)
@@ -74,6 +76,13 @@ func evalSearchBuilder(fl *Flow, p *Path) searchTemplate {
 						return b.String(), true
 					}
 				case "strings.Join":
+					if len(x.Args) == 2 {
+						if l, ok := lists[ObjOf(info, x.Args[0])]; ok {
+							if sep, ok := eval(x.Args[1]); ok {
+								return strings.Join(l, sep), true
+							}
+						}
+					}
 					return "<joined>", true
 				}
 			}
@@ -93,6 +102,38 @@ func evalSearchBuilder(fl *Flow, p *Path) searchTemplate {
 				}
 			}
 		case EvBranch:
+			// a test of the length of a list the evaluator tracks is decided, not guessed
+			if e.Cond != nil {
+				if be, ok := ast.Unparen(e.Cond).(*ast.BinaryExpr); ok {
+					if lc, ok := ast.Unparen(be.X).(*ast.CallExpr); ok && len(lc.Args) == 1 {
+						if id, ok := lc.Fun.(*ast.Ident); ok && id.Name == "len" {
+							if l, tracked := lists[ObjOf(info, lc.Args[0])]; tracked {
+								if k, isC := ConstInt(info, be.Y); isC {
+									n := int64(len(l))
+									var holds, known bool
+									switch be.Op {
+									case token.GTR:
+										holds, known = n > k, true
+									case token.GEQ:
+										holds, known = n >= k, true
+									case token.EQL:
+										holds, known = n == k, true
+									case token.NEQ:
+										holds, known = n != k, true
+									case token.LSS:
+										holds, known = n < k, true
+									case token.LEQ:
+										holds, known = n <= k, true
+									}
+									if known && holds != e.Taken {
+										t.Infeasible = true
+									}
+								}
+							}
+						}
+					}
+				}
+			}
 			if e.Cond != nil && e.Taken {
 				s := ExprStr(e.Cond)
 				for _, f := range []string{"ByIDs", "ByGroupIDs", "ByStatus"} {
@@ -110,6 +151,45 @@ func evalSearchBuilder(fl *Flow, p *Path) searchTemplate {
 				}
 			}
 		case EvAssign:
+			// a []string local: declared empty, extended by append
+			if len(e.Lhs) == 1 {
+				if o, isVar := ObjOf(info, e.Lhs[0]).(*types.Var); isVar {
+					if sl, ok := o.Type().Underlying().(*types.Slice); ok {
+						if b, ok := sl.Elem().Underlying().(*types.Basic); ok && b.Info()&types.IsString != 0 {
+							switch {
+							case len(e.Rhs) == 0:
+								lists[o] = []string{}
+							case len(e.Rhs) == 1:
+								if c, ok := ast.Unparen(e.Rhs[0]).(*ast.CallExpr); ok {
+									if id, ok := c.Fun.(*ast.Ident); ok && id.Name == "make" {
+										lists[o] = []string{}
+									} else if ok && id.Name == "append" && len(c.Args) >= 1 && ObjOf(info, c.Args[0]) == o {
+										cur := append([]string{}, lists[o]...)
+										for _, a := range c.Args[1:] {
+											v, ok := eval(a)
+											if !ok {
+												v = "<?>"
+												t.Unknown = "append(" + ExprStr(a) + ") cannot be evaluated"
+											}
+											cur = append(cur, v)
+										}
+										lists[o] = cur
+									} else {
+										delete(lists, o)
+									}
+								} else if ValueKey(info, e.Rhs[0]) == "nil" {
+									lists[o] = []string{}
+								} else if _, isLit := ast.Unparen(e.Rhs[0]).(*ast.CompositeLit); isLit {
+									lists[o] = []string{}
+								} else {
+									delete(lists, o)
+								}
+							}
+							continue
+						}
+					}
+				}
+			}
 			if len(e.Lhs) >= 1 && len(e.Rhs) == 1 {
 				// builder declaration
 				if o := ObjOf(info, e.Lhs[0]); o != nil {
@@ -307,6 +387,9 @@ func ruleSearchTemplates(r *Run, rule string) {
 			continue
 		}
 		t := evalSearchBuilder(fl, p)
+		if t.Infeasible {
+			continue
+		}
 		if len(t.Filters) == 0 {
 			continue // Filters.Validate rejects an empty filter before the builder runs
 		}
